@@ -736,6 +736,31 @@ def install_hash_level(mods):
     mods['ikesa'].hashlib = mh
 
 
+class _IntMeta(type):
+    def __instancecheck__(cls, x):
+        return isinstance(x, int)
+
+    def __subclasscheck__(cls, sub):
+        return issubclass(sub, int)
+
+
+class sym_int_type(int, metaclass=_IntMeta):
+    """`int` as seen by message.py: int(<symbolic int>) keeps the term, int.from_bytes(<symbolic bytes>) is the big/little-endian term"""
+
+    def __new__(cls, x=0, *a):
+        if isinstance(x, SymInt):
+            return x
+        return int(x, *a)
+
+    @staticmethod
+    def from_bytes(b, byteorder='big', *, signed=False):
+        if isinstance(b, SymBytes) and not b.is_concrete():
+            if signed:
+                raise Unsupported('signed int.from_bytes of symbolic bytes')
+            return (b if byteorder == 'big' else SymBytes(b.items[::-1])).to_int()
+        return int.from_bytes(bytes(b.items) if isinstance(b, SymBytes) else b, byteorder, signed=signed)
+
+
 def install(mods):
     """mods: dict name -> imported /repo module"""
     enum.EnumType.__call__ = _enum_call
@@ -744,6 +769,7 @@ def install(mods):
         m.unpack_from, m.pack, m.pack_into = unpack_from, pack, pack_into
         m.bytes, m.bytearray = sym_bytes, sym_bytearray
         m.hash, m.set = sym_hash, sym_set
+        m.int = sym_int_type
         m.range = sym_range
         m.ip_address = ip_address
         m.Message.type_2_payload = SymDict(m.Message.type_2_payload)
